@@ -398,6 +398,106 @@ def run(ctx):
     ctx.cov["disagreements"] = len(bad_corr)
     ctx.cov["monitor_failures"] = len(bad_mon)
     ctx.cov["monitor_evaluations"] = len(mons)
+    daemon_phase(ctx, 120 if ctx.quick else 1200)
+
+
+# ---------------------------------------------------------------------------- the daemon's glue around the handler
+def gen_daemon_case(rng, ctx):
+    """1-3 containers with 1-3 host ports each are set up through the daemon's glue (state file + real PortMappingHandler),
+    torn down by CNI DEL or by the garbage collector's callback with a transient failure of a random state-changing iptables
+    call, torn down again (kubelet / the next GC round retry), sometimes set up again under the same pod name"""
+    steps = [{"op": "basic"}]
+    conts = []
+    used = set()
+    for i in range(rng.choice([1, 2, 2, 3])):
+        ports = []
+        for _ in range(rng.choice([1, 2, 2, 3])):
+            while True:
+                hp = rng.randrange(20000, 60000)
+                pr = rng.choice(["TCP", "TCP", "UDP"])
+                if (hp, pr) not in used:
+                    used.add((hp, pr))
+                    break
+            ports.append([hp, rng.choice([80, 53, 8080, 443]), pr, rng.choice(["", "", "10.9.9.9"])])
+        conts.append({"cid": "cid%d" % i, "ns": "ns1", "pod": "pod-%d" % i, "ip": "10.0.0.%d" % (5 + i), "ports": ports})
+    live = []
+    for c in conts:
+        f = rng.choice([0, 0, 0, 1, 2, 3])       # 0 = no fault; n = the n-th state-changing iptables call of the step fails
+        steps.append(dict({"op": "setup"}, **c, fault=f))
+        if f == 0 or f > 1 + len(c["ports"]):
+            live.append(c)
+        ctx.dist("daemon:setup-%s" % ("fault" if f else "ok"))
+    rng.shuffle(live)
+    for c in live:
+        how = rng.choice(["cleanup", "gc_clean"])
+        f = rng.choice([0, 1, 1, 2, 2, 3, 4])
+        st = {"op": how, "cid": c["cid"], "ns": c["ns"], "pod": c["pod"]}
+        if f:
+            steps.append(dict(st, fault=f))
+            if rng.random() < 0.3:
+                steps.append(dict(st, fault=rng.choice([1, 2, 3])))
+        steps.append(dict(st, op=rng.choice(["cleanup", "gc_clean"])))          # fault-free retry
+        ctx.dist("daemon:teardown-%s-fault-%d" % (how, f))
+    return {"steps": steps}
+
+
+def daemon_phase(ctx, n):
+    """monitors (python, on the implementation's own tables and state files): a tear-down that reports success has left no state
+    file, no chain and no jump rule of the container's ports; a failed tear-down keeps the state file; the fault-free retry
+    succeeds; when everything is torn down the NAT table is the one after EnsureBasicRule (but for KUBE-MARK-MASQ)"""
+    if not ctx.build_harness("ghcni"):
+        return
+    cases = [gen_daemon_case(ctx.rng, ctx) for _ in range(n)]
+    obs = ctx.harness("ports", cases, cmd="ghcni", shards=16)
+    if obs is None:
+        return
+    for c, o in zip(cases, obs):
+        ctx.count(c)
+        if o is None or o.get("res") != "ok":
+            ctx.violation("monitor", "the daemon's port-mapping glue %s" % (o or {}).get("res"), {"case": c, "obs": o}, found=True)
+            continue
+        names = {(n_[0], n_[1], n_[2], n_[3]): n_[4] for n_ in o.get("names") or []}
+        basic = None
+        prev = None
+        bad = None
+        for si, (st, ob) in enumerate(zip(c["steps"], o["steps"])):
+            nat = {ch["name"]: ch["rules"] for ch in ob["nat"]}
+            if st["op"] == "basic":
+                basic = {k: v for k, v in nat.items() if k != "KUBE-MARK-MASQ"}
+            if st["op"] in ("cleanup", "gc_clean") and prev is not None:
+                held = prev["files"].get(st["cid"]) or []
+                chains = [names.get((p_["hostPort"], p_["protocol"], p_["containerPort"], p_["podName"])) for p_ in held]
+                if ob["err"]:
+                    if ob["files"] != prev["files"]:
+                        bad = (si, "a failed tear-down changed the state files (the retry no longer knows the ports)")
+                    elif not ob["injected"]:
+                        bad = (si, "a tear-down failed although no iptables call failed")
+                else:
+                    left = [ch for ch in chains if ch and (ch in nat or any(r.get("target") == ch for r in nat.get("KUBE-HOSTPORTS", [])))]
+                    if st["cid"] in ob["files"] or left:
+                        bad = (si, "a tear-down reported success but left the state file or chains / jump rules of the container's ports: %s" % left)
+                    if "fault" not in st and st["cid"] not in prev["files"] and any(
+                            s2.get("cid") == st["cid"] and s2["op"] == "setup" for s2 in c["steps"][:si]):
+                        # the retry found no state file: then nothing of the container may be left either
+                        all_ch = [names.get((p_[0], p_[2], p_[1], next(s2["pod"] for s2 in c["steps"] if s2.get("cid") == st["cid"] and s2["op"] == "setup")))
+                                  for s2 in c["steps"][:si] if s2.get("cid") == st["cid"] and s2["op"] == "setup" for p_ in s2["ports"]]
+                        left = [ch for ch in all_ch if ch and (ch in nat or any(r.get("target") == ch for r in nat.get("KUBE-HOSTPORTS", [])))]
+                        if left:
+                            bad = (si, "no state file is left for the container but its chains / jump rules are: %s" % left)
+                if "fault" not in st and ob["err"]:
+                    bad = (si, "a fault-free tear-down failed")
+            if bad:
+                break
+            prev = ob
+        if not bad and basic is not None:
+            last = {ch["name"]: ch["rules"] for ch in o["steps"][-1]["nat"] if ch["name"] != "KUBE-MARK-MASQ"}
+            if last != basic or o["steps"][-1]["files"]:
+                bad = (len(c["steps"]) - 1, "everything was torn down, yet the NAT table is not the one after EnsureBasicRule or a state file is left")
+        if bad:
+            ctx.violation("monitor", "C14 daemon glue, step %d (%s): %s" % (bad[0], c["steps"][bad[0]]["op"], bad[1]),
+                          {"case": c, "failing_step": bad[0], "observed": [{k: v for k, v in s_.items() if k != "nat"} for s_ in o["steps"]],
+                           "how": "bin/check C14 --replay <this file>"}, found=True, theorem="teardown_retry_completes")
+    ctx.cov["daemon_glue_cases"] = len(cases)
 
 
 def replay(ctx, path):
